@@ -402,3 +402,36 @@ def random_recv_script(rng, consts):
     if other and other.get("same_hash_as") is None and rng.random() < 0.5:
         ops.insert(len(ops) - 1, {"op": "claim", "reg": 2})
     return {"cfg": tp["cfg"], "ops": ops}
+
+
+# --------------------------------------------------------------------------- PayRecvMC behaviours -> paynet scripts
+
+def compile_recv_script(s, rng, consts):
+    """A behaviour of PayRecvMC (parts with their onion class, ticks, blocks, the user's answer)
+    compiled to engine ops over C parallel channels between sender 0 and recipient 1."""
+    C, BUF = s["c"], consts["fail_back_buffer"]
+    regmin = s["regmin"]
+    off = {"b0": BUF, "b1": BUF + 1, "b2": BUF + 2, "far": 71, "far2": 80, "m-1": regmin - 1, "m0": regmin}
+    ops = [{"op": "reg", "node": 1, "reg": 1, "amt": s["regamt"] * MSAT, "expiry": 3600,
+            "min_cltv": regmin if regmin else None, "method": rng.choice(["user", "user", "ldk"])}]
+    if any(o["op"] == "part" and o["sec"] == "other" for o in s["ops"]):
+        ops.append({"op": "reg", "node": 1, "reg": 2, "amt": MSAT, "expiry": 3600, "method": "user"})
+    i = 0
+    for o in s["ops"]:
+        t = o["op"]
+        if t == "part":
+            i += 1
+            sec = {"ok": {"reg": 1}, "flip": {"reg": 1, "flip": rng.randrange(256)}, "other": {"reg": 2}}[o["sec"]]
+            ops.append({"op": "send", "from": 0, "id": i, "reg": 1, "paths": [[(i - 1) % C + 1]], "amts": [o["amt"] * MSAT],
+                        "total": o["tot"] * MSAT, "secret": sec, "cltv": off[o["cl"]] - 1})
+        elif t == "tick":
+            ops.append({"op": "tick", "node": 1})
+        elif t == "block":
+            ops.append({"op": "block", "n": o["n"]})
+        elif t == "claim":
+            ops.append({"op": "claim", "reg": 1})
+        elif t == "failback":
+            ops.append({"op": "failback", "reg": 1})
+        ops.append({"op": "pump"})
+    ops.append({"op": "settle"})
+    return {"cfg": {"topo": "par", "n": C, "style": rng.choice([0, 2, 4])}, "ops": ops}
